@@ -27,6 +27,7 @@ func checkC09(c *Ctx) {
 	c.sessionConnectAndWill()
 	c.fanOut(r.HandOver)
 	c.drainBeforeEOF()
+	c.everyPacketDecoded()
 	c.flagBitTables()
 }
 
@@ -368,9 +369,111 @@ func (c *Ctx) drainBeforeEOF() {
 					}
 				}
 			}
+			// ... and, within an iteration, only after the data test said "not enough yet": a comparison with the
+			// producer's cursor (read through sequence.get) whose block dominates the test of the closed flag
+			if inWait {
+				dominated := false
+				for b := range l.Blocks {
+					iff, ok := b.Instrs[len(b.Instrs)-1].(*ssa.If)
+					if !ok {
+						continue
+					}
+					bo, ok := iff.Cond.(*ssa.BinOp)
+					if !ok {
+						continue
+					}
+					if !(readsCursor(bo.X, "pseq", 0) || readsCursor(bo.Y, "pseq", 0)) {
+						continue
+					}
+					// one outcome leaves the loop (enough data), the other leads to the closed-flag test
+					leaves := !l.Blocks[b.Succs[0]] || !l.Blocks[b.Succs[1]]
+					if leaves && b != call.Block() && b.Dominates(call.Block()) {
+						dominated = true
+					}
+				}
+				inWait = dominated
+			}
 			c.R.Check(inWait, ruleP5, fn.Name()+":closed-flag-tested-only-when-data-is-missing", c.P.InstrPos(call), "the closed flag is consulted inside the wait loop, i.e. only when the requested bytes are not yet there", "the ring's closed flag ends the read in "+fname(fn)+" before looking at the buffered data: packets that arrived just before the connection ended (e.g. a DISCONNECT followed by the close) are dropped and the will is published")
 		}
 	}
 	c.R.Count("closed-flag tests on the processor's read path", n)
 	c.R.Floor("closed-flag tests on the processor's read path", n, 1)
+}
+
+// readsCursor: v derives (through phis and conversions) from a call of sequence.get on the named cursor field.
+func readsCursor(v ssa.Value, field string, d int) bool {
+	if d > 6 || v == nil {
+		return false
+	}
+	switch x := v.(type) {
+	case *ssa.Call:
+		if f := x.Common().StaticCallee(); f != nil && f.Name() == "get" && recvNamed(f) == "sequence" && len(x.Common().Args) > 0 {
+			p := ir.PathOf(x.Common().Args[0])
+			return len(p.Fields) > 0 && p.Fields[len(p.Fields)-1] == field
+		}
+	case *ssa.Phi:
+		for _, e := range x.Edges {
+			if readsCursor(e, field, d+1) {
+				return true
+			}
+		}
+	case *ssa.Convert:
+		return readsCursor(x.X, field, d+1)
+	case *ssa.BinOp:
+		return readsCursor(x.X, field, d+1) || readsCursor(x.Y, field, d+1)
+	case *ssa.UnOp:
+		if lv := ir.LocalLoadValue(x); lv != nil {
+			return readsCursor(lv, field, d+1)
+		}
+	}
+	return false
+}
+
+// everyPacketDecoded: whatever the processor hands to the handler went through the codec's Decode (which
+// validates the fixed header's reserved flags, lengths and field rules): in every function on the
+// processor's read path that constructs a message with Type.New, each return that can carry a nil error
+// lies behind a Decode call.
+func (c *Ctx) everyPacketDecoded() {
+	r := c.Roles()
+	n := 0
+	for fn := range c.reachFrom(r.Processor) {
+		if fn.Pkg == nil || fn.Pkg.Pkg.Path() != pkgService || fn == r.Release {
+			continue
+		}
+		if len(c.calls(fn, pkgMessage, "Type", "New")) == 0 {
+			continue
+		}
+		n++
+		g := paths.New(c.P, fn, 0)
+		isDecode := nodeM(func(call ssa.CallInstruction) bool {
+			cc := call.Common()
+			return cc.IsInvoke() && cc.Method.Name() == "Decode"
+		})
+		mayBeOK := func(nd paths.Node) bool {
+			ret, ok := nd.Instr.(*ssa.Return)
+			if !ok || len(ret.Results) == 0 {
+				return false
+			}
+			// a return with a message: first operand not the nil constant
+			if k, isK := ir.ReturnOperand(ret, 0).(*ssa.Const); isK && k.IsNil() {
+				return false
+			}
+			switch e := ir.ReturnOperand(ret, len(ret.Results)-1).(type) {
+			case *ssa.Const:
+				return e.IsNil()
+			case *ssa.MakeInterface:
+				return false
+			}
+			return true
+		}
+		// returns after a failing Type.New carry that error
+		as := Assume{"err:Type.New": false}
+		if p := reach(g, []paths.Node{g.Entry()}, isDecode, mayBeOK, as); p != nil {
+			c.R.Bad(ruleP6, fn.Name()+":every-packet-goes-through-Decode", c.P.Pos(fn.Pos()), fn.Name()+" can hand a message to the processor that was constructed from its type nibble alone, without Decode: the fixed header's reserved flags and the remaining length are not validated, so e.g. the malformed packet 0xE1 0x00 is taken for a DISCONNECT (the will is suppressed) instead of ending the connection as a protocol error", c.witness(g, p)...)
+		} else {
+			c.R.Ok(ruleP6, fn.Name()+":every-packet-goes-through-Decode", c.P.Pos(fn.Pos()), "every return that can succeed lies behind Decode")
+		}
+	}
+	c.R.Count("message constructors on the processor's read path", n)
+	c.R.Floor("message constructors on the processor's read path (peekMessage)", n, 1)
 }
